@@ -320,7 +320,7 @@ impl CoreOp {
 //@@> invariant result@.len() == it.index@, forall|m: Seq<char>| imp_has(*old(imp), m) ==> imp_has(*imp, m), forall|i: int| 0 <= i < it.index@ ==> (plain(*state) && in_frag(#[trigger] node_vec@[i]) ==> hom(node_vec@[i], result@[i])),
     ensures
         r matches Ok(v) ==> v@.len() == node_vec@.len()
-            && forall|i: int| 0 <= i < v@.len() ==> (plain(*state) && in_frag(#[trigger] node_vec@[i]) ==> hom(node_vec@[i], v@[i])),   //# elementwise_conversion [C01]
+            && forall|i: int| 0 <= i < v@.len() ==> (plain(*state) && in_frag(#[trigger] node_vec@[i]) ==> hom(node_vec@[i], v@[i])),   //# elementwise_conversion [C01,C17]
         forall|m: Seq<char>| imp_has(*old(imp), m) ==> imp_has(*final(imp), m),  //# imports_only_grow [C16]
     decreases node_vec@,
 //@@ END
